@@ -60,14 +60,23 @@ fn winner(selected: &[usize]) -> Option<usize> {
 }
 
 fn words(xs: &[usize]) -> String {
-    xs.iter().map(|x| x.to_string()).collect::<Vec<_>>().join(",")
+    xs.iter()
+        .map(|x| x.to_string())
+        .collect::<Vec<_>>()
+        .join(",")
 }
 
 // ---------------------------------------------------------------------------------
 // (v) vote on a given selection
 // ---------------------------------------------------------------------------------
 
-fn v_case(leaps: &[usize]) -> (Option<usize>, Result<(bool, Option<usize>), String>, Vec<(&'static str, String)>) {
+fn v_case(
+    leaps: &[usize],
+) -> (
+    Option<usize>,
+    Result<(bool, Option<usize>), String>,
+    Vec<(&'static str, String)>,
+) {
     let want = winner(leaps);
     let sel: Vec<Snap> = leaps
         .iter()
@@ -75,17 +84,31 @@ fn v_case(leaps: &[usize]) -> (Option<usize>, Result<(bool, Option<usize>), Stri
         .map(|(i, l)| (i as u64, 0.0, 1.0 / 1024.0, 1.0 / 1024.0, None, LEAPS[*l]))
         .collect();
     let algo = AlgorithmConfig::default();
-    let got = common::catch(|| algo.verif_gb_combine_leap(&sel)).map(|(some, l)| (some, l.map(code)));
+    let got =
+        common::catch(|| algo.verif_gb_combine_leap(&sel)).map(|(some, l)| (some, l.map(code)));
     let mut viol = Vec::new();
     match &got {
         Err(e) => viol.push(("C04:vote-panic", format!("combine panicked: {e}"))),
         Ok((some, l)) => {
             if *some == leaps.is_empty() {
-                viol.push(("C04:wrong-indicator", "combine() result presence does not match a non-empty selection".to_string()));
+                viol.push((
+                    "C04:wrong-indicator",
+                    "combine() result presence does not match a non-empty selection".to_string(),
+                ));
             }
             if *l != want {
-                let class = if want.is_none() { "C04:no-majority-indicator-set" } else { "C04:wrong-indicator" };
-                viol.push((class, format!("vote over {:?} gives {:?}, strict majority of the known ones says {:?}", leaps, l, want)));
+                let class = if want.is_none() {
+                    "C04:no-majority-indicator-set"
+                } else {
+                    "C04:wrong-indicator"
+                };
+                viol.push((
+                    class,
+                    format!(
+                        "vote over {:?} gives {:?}, strict majority of the known ones says {:?}",
+                        leaps, l, want
+                    ),
+                ));
             }
         }
     }
@@ -106,10 +129,18 @@ fn run_vote(ctx: &Ctx, n: usize) {
             ctx.distinct(common::hash_of(&("v", &leaps)));
         }
         for (class, what) in viol {
-            ctx.violation(class, format!("vote n={n}: {what}"), format!("v;leaps={}", words(&leaps)));
+            ctx.violation(
+                class,
+                format!("vote n={n}: {what}"),
+                format!("v;leaps={}", words(&leaps)),
+            );
         }
         if n == 5 && x % 211 == 7 {
-            ctx.sample(format!("vote over {:?} -> {:?}", leaps.iter().map(|l| LEAPS[*l]).collect::<Vec<_>>(), want.map(|l| LEAPS[l])));
+            ctx.sample(format!(
+                "vote over {:?} -> {:?}",
+                leaps.iter().map(|l| LEAPS[*l]).collect::<Vec<_>>(),
+                want.map(|l| LEAPS[l])
+            ));
         }
     }
     ctx.add("vote_expect_nowarning", by_outcome[0]);
@@ -132,20 +163,40 @@ fn s_expected(word: &[usize]) -> (Vec<usize>, Option<usize>) {
             .collect()
     };
     let (a, o) = (synced(0), synced(1));
-    let sel = if a.len() > o.len() { a } else if o.len() > a.len() { o } else { vec![] };
+    let sel = if a.len() > o.len() {
+        a
+    } else if o.len() > a.len() {
+        o
+    } else {
+        vec![]
+    };
     let leaps: Vec<usize> = sel.iter().map(|i| word[*i] / 2).collect();
     let w = if sel.is_empty() { None } else { winner(&leaps) };
     (sel, w)
 }
 
-fn s_case(word: &[usize]) -> (Vec<usize>, Option<usize>, String, Vec<(&'static str, String)>) {
+fn s_case(
+    word: &[usize],
+) -> (
+    Vec<usize>,
+    Option<usize>,
+    String,
+    Vec<(&'static str, String)>,
+) {
     let (want_sel, want) = s_expected(word);
     let cands: Vec<Snap> = word
         .iter()
         .enumerate()
         .map(|(i, s)| {
             let off = if s % 2 == 0 { 0.0 } else { 100.0 / 1024.0 };
-            (i as u64, off, 2.0 / 1024.0, 16.0 / 1024.0, None, LEAPS[s / 2])
+            (
+                i as u64,
+                off,
+                2.0 / 1024.0,
+                16.0 / 1024.0,
+                None,
+                LEAPS[s / 2],
+            )
         })
         .collect();
     let algo = AlgorithmConfig::default();
@@ -163,10 +214,22 @@ fn s_case(word: &[usize]) -> (Vec<usize>, Option<usize>, String, Vec<(&'static s
             let leap = leap.map(code);
             obs = format!("selected={sel:?} used={used:?} leap={leap:?}");
             if sel != want_sel {
-                viol.push(("C04:selection-mismatch", format!("selected {sel:?}, the larger synchronised group is {want_sel:?}")));
+                viol.push((
+                    "C04:selection-mismatch",
+                    format!("selected {sel:?}, the larger synchronised group is {want_sel:?}"),
+                ));
             } else if leap != want {
-                let class = if want.is_none() { "C04:no-majority-indicator-set" } else { "C04:wrong-indicator" };
-                viol.push((class, format!("indicator {leap:?} but the selected sources {want_sel:?} vote {want:?}")));
+                let class = if want.is_none() {
+                    "C04:no-majority-indicator-set"
+                } else {
+                    "C04:wrong-indicator"
+                };
+                viol.push((
+                    class,
+                    format!(
+                        "indicator {leap:?} but the selected sources {want_sel:?} vote {want:?}"
+                    ),
+                ));
             }
         }
     }
@@ -193,7 +256,11 @@ fn run_select_vote(ctx: &Ctx, n: usize) {
                 winners += 1;
             }
             for (class, what) in viol {
-                ctx.violation(class, format!("select+vote n={n}: {what}"), format!("s;syms={}", words(&word)));
+                ctx.violation(
+                    class,
+                    format!("select+vote n={n}: {what}"),
+                    format!("s;syms={}", words(&word)),
+                );
             }
         }
         ctx.add("evaluations", cases);
@@ -224,7 +291,13 @@ fn e_expected(word: &[usize]) -> (Vec<u64>, Option<usize>) {
             .collect()
     };
     let (a, o) = (group(0), group(1));
-    let sel = if a.len() > o.len() { a } else if o.len() > a.len() { o } else { vec![] };
+    let sel = if a.len() > o.len() {
+        a
+    } else if o.len() > a.len() {
+        o
+    } else {
+        vec![]
+    };
     let leaps: Vec<usize> = sel.iter().map(|i| word[*i as usize] / ROLES).collect();
     let w = if sel.is_empty() { None } else { winner(&leaps) };
     (sel, w)
@@ -292,13 +365,25 @@ fn e_run(word: &[usize], prev: usize, trigger: usize) -> EObs {
     let log = clock.take();
     EObs {
         prev_established,
-        early_status: early.iter().filter(|c| matches!(c, Call::Status(_))).count(),
+        early_status: early
+            .iter()
+            .filter(|c| matches!(c, Call::Status(_)))
+            .count(),
         early_leap,
         status: log
             .iter()
-            .filter_map(|c| if let Call::Status(l) = c { Some(code(*l)) } else { None })
+            .filter_map(|c| {
+                if let Call::Status(l) = c {
+                    Some(code(*l))
+                } else {
+                    None
+                }
+            })
             .collect(),
-        snapshot_leap: u.time_snapshot.map(|t| code(t.leap_indicator)).unwrap_or(usize::MAX),
+        snapshot_leap: u
+            .time_snapshot
+            .map(|t| code(t.leap_indicator))
+            .unwrap_or(usize::MAX),
         controller_leap: code(ctl.verif_gb_timedata().leap_indicator),
         used: u.used_sources.map(|v| {
             let mut v: Vec<u64> = v.iter().map(|c| c.0).collect();
@@ -312,7 +397,10 @@ fn e_run(word: &[usize], prev: usize, trigger: usize) -> EObs {
 fn e_judge(word: &[usize], prev: usize, o: &EObs) -> Vec<(&'static str, String)> {
     let mut out = Vec::new();
     let prev_code = if prev == 0 { UNKNOWN } else { prev - 1 };
-    assert_eq!(o.prev_established, prev_code, "harness: could not establish the previous indicator");
+    assert_eq!(
+        o.prev_established, prev_code,
+        "harness: could not establish the previous indicator"
+    );
     let (want_sel, want) = e_expected(word);
     if o.early_status > 0 || o.early_leap != prev_code {
         out.push((
@@ -321,24 +409,41 @@ fn e_judge(word: &[usize], prev: usize, o: &EObs) -> Vec<(&'static str, String)>
         ));
     }
     if o.used.clone().unwrap_or_default() != want_sel {
-        out.push(("C04:selection-mismatch", format!("used {:?}, the larger usable synchronised group is {want_sel:?}", o.used)));
+        out.push((
+            "C04:selection-mismatch",
+            format!(
+                "used {:?}, the larger usable synchronised group is {want_sel:?}",
+                o.used
+            ),
+        ));
         return out;
     }
     if o.snapshot_leap != o.controller_leap {
-        out.push(("C04:kernel-advertised-differ", "returned time snapshot and controller state disagree".to_string()));
+        out.push((
+            "C04:kernel-advertised-differ",
+            "returned time snapshot and controller state disagree".to_string(),
+        ));
     }
     match want {
         Some(l) => {
             if o.status != [l] {
                 out.push((
                     "C04:wrong-indicator",
-                    format!("selected {want_sel:?} vote {:?} but status_update calls were {:?}", LEAPS[l], o.status.iter().map(|x| LEAPS[*x]).collect::<Vec<_>>()),
+                    format!(
+                        "selected {want_sel:?} vote {:?} but status_update calls were {:?}",
+                        LEAPS[l],
+                        o.status.iter().map(|x| LEAPS[*x]).collect::<Vec<_>>()
+                    ),
                 ));
             }
             if o.snapshot_leap != l && o.status == [l] {
                 out.push((
                     "C04:kernel-advertised-differ",
-                    format!("selected {want_sel:?} vote {:?} but the advertised snapshot says {:?}", LEAPS[l], LEAPS.get(o.snapshot_leap)),
+                    format!(
+                        "selected {want_sel:?} vote {:?} but the advertised snapshot says {:?}",
+                        LEAPS[l],
+                        LEAPS.get(o.snapshot_leap)
+                    ),
                 ));
             }
         }
@@ -385,7 +490,11 @@ fn run_e2e(ctx: &Ctx, n: usize) {
                         cases += 1;
                         calls += 3 * n as u64 + 6;
                         match common::catch(|| e_run(&word, prev, trigger)) {
-                            Err(e) => ctx.violation("C04:vote-panic", format!("controller panicked (daemon would abort): {e}"), e_trace(&word, prev, trigger)),
+                            Err(e) => ctx.violation(
+                                "C04:vote-panic",
+                                format!("controller panicked (daemon would abort): {e}"),
+                                e_trace(&word, prev, trigger),
+                            ),
                             Ok(o) => {
                                 match want {
                                     Some(l) => set[l] += 1,
@@ -400,9 +509,16 @@ fn run_e2e(ctx: &Ctx, n: usize) {
                                     steered_too += 1;
                                 }
                                 for (class, what) in e_judge(&word, prev, &o) {
-                                    ctx.violation(class, format!("end-to-end n={n}: {what}"), e_trace(&word, prev, trigger));
+                                    ctx.violation(
+                                        class,
+                                        format!("end-to-end n={n}: {what}"),
+                                        e_trace(&word, prev, trigger),
+                                    );
                                 }
-                                if x % 7919 == 11 && trigger == 0 && prev == (x as usize / 7919) % PREVS {
+                                if x % 7919 == 11
+                                    && trigger == 0
+                                    && prev == (x as usize / 7919) % PREVS
+                                {
                                     ctx.sample(format!(
                                         "e2e {} -> used {:?}, status_update {:?}, advertised {:?}",
                                         e_trace(&word, prev, trigger),
@@ -426,8 +542,14 @@ fn run_e2e(ctx: &Ctx, n: usize) {
             ctx.add("e2e_expect_set_leap61", set[1]);
             ctx.add("e2e_expect_set_leap59", set[2]);
             ctx.add("e2e_expect_previous_kept", kept);
-            ctx.add("e2e_expect_previous_kept_despite_selection", kept_with_selection);
-            ctx.add("e2e_indicator_set_and_clock_steered_same_update", steered_too);
+            ctx.add(
+                "e2e_expect_previous_kept_despite_selection",
+                kept_with_selection,
+            );
+            ctx.add(
+                "e2e_indicator_set_and_clock_steered_same_update",
+                steered_too,
+            );
             ctx.distinct_many(distinct);
         });
     });
@@ -436,13 +558,19 @@ fn run_e2e(ctx: &Ctx, n: usize) {
 // ---------------------------------------------------------------------------------
 
 fn field<'a>(parts: &'a [&'a str], key: &str) -> Option<&'a str> {
-    parts.iter().find_map(|p| p.strip_prefix(key).and_then(|r| r.strip_prefix('=')))
+    parts
+        .iter()
+        .find_map(|p| p.strip_prefix(key).and_then(|r| r.strip_prefix('=')))
 }
 
 fn replay(ctx: &Ctx, trace: &str) -> String {
     let parts: Vec<&str> = trace.split(';').collect();
     let list = |key: &str| -> Vec<usize> {
-        field(&parts, key).unwrap_or("").split(',').filter_map(|s| s.parse().ok()).collect()
+        field(&parts, key)
+            .unwrap_or("")
+            .split(',')
+            .filter_map(|s| s.parse().ok())
+            .collect()
     };
     match parts[0] {
         "v" => {
@@ -469,9 +597,17 @@ fn replay(ctx: &Ctx, trace: &str) -> String {
         }
         _ => {
             let word = list("syms");
-            let prev: usize = field(&parts, "prev").and_then(|s| s.parse().ok()).unwrap_or(0);
-            let trigger: usize = field(&parts, "trig").and_then(|s| s.parse().ok()).unwrap_or(0);
-            if word.is_empty() || word.iter().any(|s| *s >= LEAPS.len() * ROLES) || prev >= PREVS || trigger >= word.len() {
+            let prev: usize = field(&parts, "prev")
+                .and_then(|s| s.parse().ok())
+                .unwrap_or(0);
+            let trigger: usize = field(&parts, "trig")
+                .and_then(|s| s.parse().ok())
+                .unwrap_or(0);
+            if word.is_empty()
+                || word.iter().any(|s| *s >= LEAPS.len() * ROLES)
+                || prev >= PREVS
+                || trigger >= word.len()
+            {
                 return "bad trace".into();
             }
             match super::block_on_paused(async { common::catch(|| e_run(&word, prev, trigger)) }) {
@@ -484,7 +620,10 @@ fn replay(ctx: &Ctx, trace: &str) -> String {
                     for (c, w) in &viol {
                         ctx.violation(c, w.clone(), trace);
                     }
-                    format!("{o:?} violations={:?}", viol.iter().map(|v| v.0).collect::<Vec<_>>())
+                    format!(
+                        "{o:?} violations={:?}",
+                        viol.iter().map(|v| v.0).collect::<Vec<_>>()
+                    )
                 }
             }
         }
